@@ -137,6 +137,9 @@ input I @foo { "f" x: Int = 1 @foo y: E = A l: [Float] = 1 d: Date = "2020-01-01
     import random as _random
     for k in range(3):
         out.append(_typed_equal_case(_random.Random(1000 + k)))
+    # seeded C12-d: enum defaults are printed as the member *holding* the internal value
+    for k, mode in enumerate(gen_sdl.ENUM_VALUE_MODES):
+        out.append(_enum_collision_case(_random.Random(2000 + k), mode=mode))
     return out
 
 
@@ -207,6 +210,63 @@ def _typed_equal_case(rng, label="typed-equal-defaults"):
     return _case(schemas, steps[:6], label)
 
 
+# ---- enums whose internal values are spelled like other members' names ------
+def _enum_collision_spec(rng):
+    """code-built only: enum-typed defaults at argument, input-field and
+    directive-argument positions, bare, non-null, in lists and inside
+    input-object defaults (nested); the internal values come from one of
+    gen_sdl.ENUM_VALUE_MODES"""
+    names = rng.sample(["ASC", "DESC", "NONE", "RANDOM"], rng.randint(2, 4))
+    cnames = rng.sample(["RED", "GREEN", "BLUE"], rng.randint(1, 3))
+    member = lambda: {"k": "enum", "v": rng.choice(names)}  # noqa: E731
+    colour = lambda: {"k": "enum", "v": rng.choice(cnames)}  # noqa: E731
+    members = lambda: {"k": "list", "v": [member() for _ in range(rng.randint(1, 3))]}  # noqa: E731
+    paging = lambda: {"k": "obj", "v": [["limit", {"k": "int", "v": "5"}], ["order", member()]]  # noqa: E731
+                      + ([["orders", members()]] if rng.random() < 0.5 else [])}
+    enum = lambda n, vs: {"kind": "enum", "name": n, "desc": None, "dirs": [], "values": [  # noqa: E731
+        {"name": v, "desc": None, "dep": None, "dirs": []} for v in vs]}
+    args = [_iv("order", "Order", member()), _iv("orders", {"list": "Order"}, members()),
+            _iv("strict", {"nn": "Order"}, member()), _iv("matrix", {"list": {"list": {"nn": "Order"}}},
+                                                            {"k": "list", "v": [members(), members()]}),
+            _iv("paging", "Paging", paging()),
+            _iv("outer", "Outer", {"k": "obj", "v": [["paging", paging()], ["colour", colour()]]}),
+            _iv("colour", "Color", colour()), _iv("plain", "Order", None)]
+    rng.shuffle(args)
+    types = [
+        enum("Order", names), enum("Color", cnames),
+        {"kind": "input", "name": "Paging", "desc": None, "dirs": [], "fields": [
+            _iv("limit", "Int", {"k": "int", "v": "10"}), _iv("order", "Order", member()),
+            _iv("orders", {"list": {"nn": "Order"}}, members())]},
+        {"kind": "input", "name": "Outer", "desc": None, "dirs": [], "fields": [
+            _iv("paging", "Paging", paging()), _iv("colour", "Color", colour()), _iv("fallBack", "Order", None)]},
+        {"kind": "object", "name": "Query", "desc": None, "dirs": [], "ifaces": [], "fields": [
+            {"name": "items", "desc": None, "args": args[:rng.randint(4, len(args))], "type": "Order",
+             "dep": None, "dirs": []}]},
+    ]
+    directives = [{"name": "sort", "desc": None, "locs": ["FIELD"], "args": [
+        _iv("by", "Order", member()), _iv("all", {"list": "Order"}, members()), _iv("page", "Paging", paging())]}]
+    return {"types": types, "directives": directives, "roots": {"query": "Query"}, "explicit_schema": False,
+            "schema_dirs": []}
+
+
+def _enum_collision_case(rng, mode=None, label="enum-value-collision"):
+    mode = mode or rng.choice(gen_sdl.ENUM_VALUE_MODES)
+    schemas = [{"code": _enum_collision_spec(rng), "pynames": rng.random() < 0.5, "internal": mode}]
+    steps = [[0, dict(DEFAULT)]]
+    if rng.random() < 0.4:
+        steps.append([0, _rand_opts(rng)])
+    return _case(schemas, steps, label)
+
+
+def _internal_mode(rng):
+    c = rng.random()
+    if c < 0.55:
+        return True
+    if c < 0.65:
+        return False
+    return rng.choice(gen_sdl.ENUM_VALUE_MODES)
+
+
 def _free_opts(rng, intro_p=0.5):
     """every option drawn independently (indent as width and as string)"""
     r = rng
@@ -238,7 +298,7 @@ def _source(rng):
     g = gen_sdl.Gen(rng, c12=True)
     spec = g.schema()
     if rng.random() < 0.4:
-        return {"code": spec, "pynames": rng.random() < 0.8, "internal": rng.random() < 0.8}
+        return {"code": spec, "pynames": rng.random() < 0.8, "internal": _internal_mode(rng)}
     text, _ = gen_sdl.render(spec, rng, split=rng.random() < 0.5)
     return {"sdl": text}
 
@@ -260,6 +320,8 @@ def generate(rng, tier):
         cases.append(_typed_equal_case(rng))
     for _ in range(30 if tier == "quick" else 500):
         cases.append(_options_matrix_case(rng))
+    for _ in range(15 if tier == "quick" else 250):
+        cases.append(_enum_collision_case(rng))
     return cases
 
 
